@@ -101,6 +101,7 @@ func genAuthCfg(r *rand.Rand) vfCfg {
 		// passwords and second factors checked by (simulated) Okta through the real Okta authenticator
 		c.PwBackend = "okta"
 	}
+	c.Federated = chance(r, 0.2) // oauth2 login through a (simulated) identity provider
 	return c
 }
 
@@ -377,6 +378,23 @@ func genAuthPlan(r *rand.Rand, tier, focus string) *vfPlan {
 				}
 			case 6:
 				add(vfStep{Op: "pushpoll", Sess: s, A: "sess:" + pick(r, vfSessNames)})
+			}
+			if p.Cfg.Federated && chance(r, 0.5) {
+				// login through the identity provider, honest or not
+				add(vfStep{Op: "fedlogin", Sess: s})
+				who := pick(r, vfHonestUsers)
+				add(vfStep{Op: "idp_auth", Sess: s, User: who, A: pick(r, []string{"", "", "email"})})
+				if chance(r, 0.15) {
+					add(vfStep{Op: "advance", D: pick(r, []string{"31s", "5m", "11m"})})
+				}
+				cb := vfStep{Op: "fedcallback", Sess: s, A: pick(r, []string{"", "", "", "wrongstate", "nocookie", "code:" + pick(r, vfSessNames)})}
+				add(cb)
+				if cb.A == "" {
+					sessUser[s] = who
+					if chance(r, 0.3) {
+						add(vfStep{Op: "fedcallback", Sess: pick(r, []string{s, s, pick(r, vfSessNames)}), A: "replay"})
+					}
+				}
 			}
 			if p.Cfg.PwBackend == "okta" && chance(r, 0.5) {
 				switch r.IntN(3) {
